@@ -173,6 +173,15 @@ type restoreEvent struct {
 	Stored map[string]world.CP `json:"stored"`
 }
 
+// envStepEvent: an environment step that only READS the witness (a pass of its REST distributor) was executed
+type envStepEvent struct {
+	E         string `json:"e"`
+	Run       string `json:"run"`
+	K         int    `json:"k"`
+	Kind      string `json:"kind"`
+	Unchanged bool   `json:"unchanged"`
+}
+
 type resetEvent struct {
 	E     string `json:"e"`
 	Run   string `json:"run"`
@@ -461,8 +470,8 @@ func execPhase(base *world.World, tag string, phase int, steps []seqStep, storeK
 		case "distribute":
 			// the witness' own REST distributor makes a pass, wired as Main wires it (same adapter, the logs' configuration, the witness' verifier);
 			// the distributor service answers 200 to everything (a transport without a network). It only reads: nothing observable may change.
-			events = append(events, skipEvent{E: "skip", Run: tag, K: k})
 			if fl != nil || holder != nil {
+				events = append(events, skipEvent{E: "skip", Run: tag, K: k})
 				continue
 			}
 			logs, err := bastionLogs(w)
@@ -476,6 +485,10 @@ func execPhase(base *world.World, tag string, phase int, steps []seqStep, storeK
 			if d, err := rest.NewDistributor("http://distributor.invalid", &http.Client{Transport: okTransport{}}, logs, witV, witnessAdapterOf(wit)); err == nil {
 				_ = d.DistributeOnce(ctx)
 			}
+			// byte for byte, what the store holds after the pass is what it held before
+			after := takeSnapshot(w, st.p)
+			events = append(events, envStepEvent{E: "envstep", Run: tag, K: k, Kind: "distribute", Unchanged: pre.equal(after)})
+			pre = after
 			continue
 		case "migrate":
 			// the file the witness runs on is replaced by one with the same content written the way the RELEASE under verification writes it
